@@ -12,7 +12,7 @@ DEFAULT = {
                'stop': 2, 'stoppipeline': 2, 'stopstepgroup': 2, 'clear': 2, 'clearall': 1, 'pype': 5,
                'merge': 3, 'default': 2},
     'p_foreach': 0.18, 'p_while': 0.12, 'p_retry': 0.15, 'p_run': 0.15, 'p_skip': 0.10,
-    'p_swallow': 0.20, 'p_onerror': 0.10, 'p_simple': 0.04,
+    'p_swallow': 0.20, 'p_onerror': 0.10, 'p_simple': 0.04, 'p_cached': 0.05,
     'n_groups': (1, 5), 'n_steps': (1, 5), 'n_pipes': (1, 3),
     'p_handlers': 0.5, 'p_api_groups': 0.35, 'p_fail_when': 0.6, 'p_empty_foreach_literal': 0.0,
     'p_fmt_groupname': 0.2, 'p_clear_counters': 0.3, 'p_parser': 0.15,
@@ -224,6 +224,12 @@ def gen_step(rng, p, pipe, group, idx, targets, handlers, later_pipes, depth_tag
         st['skip'] = gen_bool_expr(rng, loops)
     if rng.random() < p['p_swallow']:
         st['swallow'] = gen_bool_expr(rng, loops) if rng.random() < 0.5 else True
+    strs = [k for k in ('run', 'skip', 'swallow') if isinstance(st.get(k), str) and st[k].strip() == st[k] != ''
+            and '\n' not in st[k]]
+    if strs and rng.random() < 0.3:
+        # the same text written as an anchored scalar or a literal block scalar: the round-trip yaml
+        # loader then hands over a str SUBCLASS, which is a string like any other to the decorators
+        st['ystyle'] = {k: rng.choice(['anchor', 'block']) for k in strs}
     if rng.random() < p['p_onerror']:
         st['onError'] = rng.choice(['custom {n}', {'d': [['code', 7], ['at', '{word}']]}, 'plain', '{word}',
                                     {'l': ['{n}', 1]}, '{missing_key}' if rng.random() < 0.4 else 'x', 0, ''])
@@ -257,6 +263,12 @@ def gen_step(rng, p, pipe, group, idx, targets, handlers, later_pipes, depth_tag
             if 'while' in loops:
                 conds += [['cmp', 'eq', name('whileCounter'), ['int', 2]]] * 2
             cfg.append(['when', py(rng.choice(conds))])
+        if rng.random() < p['p_cached']:
+            # a step that raises ONE pre-built exception object again at every failure
+            k = rng.choice([0, 0, 1])
+            cfg[0], cfg[1] = [['err', 'RuntimeError'], ['msg', 'the thing is down']] if k == 0 else \
+                [['err', 'vfail.CustomError'], ['msg', 'cached {n}']]
+            cfg.append(['cached', k])
         inn.append(['vfail', {'d': cfg}])
     elif body == 'incr':
         inn.append(['vincr', rng.choice(['cnt', 'cnt', 'other', 'n'])])
@@ -494,7 +506,7 @@ def falsy_item_call(rng, case):
     """a foreach over items that are falsy (0, '', False, None) whose body calls a group running its
     own foreach: the caller's current item is put back when the call returns, whatever its value."""
     groups = [gs for gs in case['lib'][0][1] if gs[0] not in ('steps', 'fic', 'gz')]
-    items = rng.choice([[0, 1], [1, 0], ['', 'a'], [False, True], [None, 0], [0]])
+    items = rng.choice([[0, 1], [1, 0], ['', 'a'], [False, True], [None, 0], [0], [0, None], [None], ['a', None]])
     callee = [{'body': 'probe', 'in': [['ptag', 'main/fic/0'], ['pwatch', {'l': ['i']}]]},
               {'body': 'probe', 'in': [['ptag', 'main/fic/1']], 'foreach': {'l': ['p', 'q']}}]
     callstep = {'body': 'call', 'in': [['ptag', 'main/steps/0'], ['call', 'fic']], 'foreach': {'l': items}}
@@ -604,6 +616,37 @@ def retry_in_loop(rng, case):
         st['while'] = {'max': 3}
         if kind == 'expr':
             retry['sleep'] = '{whileCounter}'
+    for g in case['lib'][0][1]:
+        if g[0] == 'steps':
+            g[1] = [st] + (g[1] or [])
+            break
+    else:
+        case['lib'][0][1].insert(0, ['steps', [st]])
+    return case
+
+
+def per_iteration_decorators(rng, case):
+    """a failing step inside foreach / while whose swallow (run, skip) is an expression of the loop
+    counter that flips between iterations: every iteration evaluates the decorator anew, so the
+    iteration where swallow is false raises although earlier ones were swallowed."""
+    loop = rng.choice(['foreach', 'foreach', 'while'])
+    st = {'body': 'fail', 'in': [['ptag', 'main/steps/pid'],
+                                 ['vfail', {'d': [['err', rng.choice(['ValueError', 'RuntimeError'])], ['msg', 'it {ptag}']]}]]}
+    if loop == 'foreach':
+        st['foreach'] = {'l': rng.choice([[1, 2, 3], [2, 1], [1, 1, 2], ['a', 'b']])}
+        sw = rng.choice([py(['cmp', 'ne', name('i'), ['int', 2]]), py(['cmp', 'eq', name('i'), ['int', 1]]),
+                         py(['cmp', 'ne', name('i'), ['str', 'b']]), py(['cmp', 'lt', name('i'), ['int', 3]]) if
+                         st['foreach']['l'][0] != 'a' else py(['cmp', 'eq', name('i'), ['str', 'a']])])
+    else:
+        st['while'] = {'max': 3}
+        sw = rng.choice([py(['cmp', 'lt', name('whileCounter'), ['int', 2]]), py(['cmp', 'ne', name('whileCounter'), ['int', 2]]),
+                         py(['cmp', 'eq', name('whileCounter'), ['int', 1]])])
+    st['swallow'] = sw
+    r = rng.random()
+    if r < 0.2:
+        st['onError'] = 'at {ptag}'
+    elif r < 0.35:
+        st['run'] = sw if rng.random() < 0.5 else True
     for g in case['lib'][0][1]:
         if g[0] == 'steps':
             g[1] = [st] + (g[1] or [])
